@@ -171,3 +171,41 @@ Definition uuid_core (s : str) : str :=
 Definition is_uuid_str (s : str) : bool :=
   let h := uuid_core s in Nat.eqb (length h) 32 && forallb is_hex h.
 Definition is_uuid (t : tok) : bool := match t with TI _ => true | TS s => is_uuid_str s end.
+
+(* ---- H5Ocopy (h5py Group.copy).  A deep copy follows every hard link - also those leaving the
+   copied hierarchy - and copies each object once, keeping the sharing.  Modelled by appending a
+   shifted copy of ALL nodes of the source store: the copy of address a is a + length (nodes dst);
+   what is not reachable from the copied root is unreachable garbage no observation sees.
+   Copying inside one file is h5copy_into s s. *)
+Definition shift_node (k : nat) (x : node) : node :=
+  mkNode (attrs x) (map (fun p => (fst p, (snd p + k)%nat)) (links x)) (isdata x).
+Definition h5copy_into (dst src : store) : store :=
+  mkStore (nodes dst ++ map (shift_node (length (nodes dst))) (nodes src)).
+Definition h5copy (s : store) : store := h5copy_into s s.
+Definition copy_addr (dst : store) (a : addr) : addr := (a + length (nodes dst))%nat.
+
+(* shallow copy: the object with its attributes and its immediate members; a member that is a
+   group is copied with its attributes but without members *)
+Definition hollow (x : node) : node := mkNode (attrs x) [] (isdata x).
+Definition h5copy_shallow (s : store) (a : addr) : store * addr :=
+  let n := length (nodes s) in
+  let x := node_at s a in
+  let kids := map (fun p => hollow (node_at s (snd p))) (links x) in
+  let top := mkNode (attrs x) (combine (map fst (links x)) (seq (S n) (length (links x)))) (isdata x) in
+  (mkStore (nodes s ++ top :: kids), n).
+
+(* keep_id=False: every object from address n0 on that carries an entity_id gets a fresh one
+   (the node at n0 + i gets the i-th id after [base]), and a link named by the old id of its
+   target is renamed to the target's new id *)
+Definition fresh_for (n0 : nat) (base : N) (a : addr) : tok := TI (base + N.of_nat (a - n0)).
+Definition regen_node (s : store) (n0 : nat) (base : N) (a : addr) (x : node) : node :=
+  mkNode (match assoc_get k_id (attrs x) with
+          | Some _ => assoc_set k_id (AText (fresh_for n0 base a)) (attrs x)
+          | None => attrs x
+          end)
+         (map (fun p => if Nat.leb n0 (snd p) && opt_eqb tok_eqb (entity_id s (snd p)) (Some (fst p))
+                        then (fresh_for n0 base (snd p), snd p) else p) (links x))
+         (isdata x).
+Definition regen_ids (s : store) (n0 : nat) (base : N) : store :=
+  mkStore (map (fun p => if Nat.leb n0 (fst p) then regen_node s n0 base (fst p) (snd p) else snd p)
+               (combine (seq 0 (length (nodes s))) (nodes s))).
